@@ -162,3 +162,10 @@ impl<T, F: FnMut(&mut Context<'_>) -> Poll<T>> Future for PollFn<F> {
         (self.0)(cx)
     }
 }
+
+#[cfg(feature = "verif")]
+#[doc(hidden)]
+#[allow(missing_docs)]
+pub mod verif_harness {
+    include!(concat!(env!("H2_VERIF_DIR"), "/harness/lib.rs"));
+}
